@@ -9,7 +9,7 @@ claim("C19",
 
 claim("C04",
   "guarded reachability over SSA (type guard, reply filter, post guard), argument-agreement tables, escape/call-site confinement, lockset",
-  "Decides from the source that only Call/Post can reach an implementation method (type guard in the generic stub + raw stubs never escape + stub methods only called from their Receive), that the reply filter compares service/object/action/id and is single-shot and registered before the send, that ids are advanced under a mutex, that error/reply headers carry the request's address and id in the right positions, that no reply follows a Post once the method ran and no Channel implementation answers an error to anything but a Call, and that the messages of one object (service-side mailbox, client-side object queue) are handed to it one at a time by one goroutine. Necessary conditions of exactly-one-own-answer; they hold on every path, hence for every schedule.",
+  "Decides from the source that only Call/Post can reach an implementation method (type guard in the generic stub + raw stubs never escape + stub methods only called from their Receive), that the reply filter compares service/object/action/id and is single-shot and registered before the send, that ids are advanced under a mutex, that error/reply headers carry the request's address and id in the right positions, that no reply follows a Post once the method ran and no Channel implementation answers an error to anything but a Call, and that the messages of one object (service-side mailbox, client-side object queue) are handed to it one at a time by one goroutine. Necessary conditions of exactly-one-own-answer; they hold on every path, hence for every schedule. The shutdown rule of C11 (stream closed before the handler mutex is taken and every handler closed) is part of this check: a call registering during shutdown gets its one outcome from the sweep or from a failing send.",
   "Does not decide exactly-once execution or own-result under interleavings (runtime); mailbox FIFO and net semantics trusted. D9 and D12 were repaired in /repo (fixed: lines in known_findings.txt).",
   "DESIGN.md §3 C04")
 
@@ -27,19 +27,19 @@ claim("C10",
 
 claim("C11",
   "guarded reachability / must-pass path rules over SSA, channel-capacity and select-shape checks",
-  "Decides that every read error leads to closeWith(err) and leaves the loop, that shutdown closes the stream and every registered handler with the error, that the reply handler is registered before the send and removed on send failure, that every queue whose filter can match is buffered (dispatch never blocks), that client.Call waits on error channel, reply queue (closed ⇒ error) and cancel together, and that subscription channels are closed exactly once per goroutine exit.",
+  "Decides that every read error leads to closeWith(err) and leaves the loop, that shutdown closes the stream and every registered handler with the error, that the reply handler is registered before the send and removed on send failure, that every queue whose filter can match is buffered (dispatch never blocks), that client.Call waits on error channel, reply queue (closed ⇒ error) and cancel together, and that subscription channels are closed exactly once per goroutine exit. The stream must be closed before the handler mutex is taken (a call registering after the sweep then fails on its send); every handler has a queue of its own (C17.queue-owner, shared).",
   "'Bounded time', exactly-once firing under races and every fault position of every I/O call are runtime properties and not decided.",
   "DESIGN.md §3 C11")
 
 claim("C12",
   "call-graph reachability (CHA/VTA) from callbacks run under the endpoint lock + error-flow in generated stubs + guarded reachability",
-  "Decides that closers/filters (which run under handlersMutex) cannot re-acquire it or block, that dispatch never blocks and answers a full-queue Call with an Error, that every argument-decoding error in a generated stub becomes SendError without calling the method, that unknown service/object/action are answered, that removal entry points delete exactly the id named, and that no explicit panic is reachable from a Receive implementation.",
+  "Decides that closers/filters (which run under handlersMutex) cannot re-acquire it or block, that dispatch never blocks and answers a full-queue Call with an Error, that every argument-decoding error in a generated stub becomes SendError without calling the method, that unknown service/object/action are answered, that removal entry points delete exactly the id named, and that no explicit panic is reachable from a Receive implementation. Nothing called with a mutex of bus/** held comes back, through the call graph (callbacks by type flow), to an acquisition of a mutex of that class (C12.locks reentrant-through); a wire integer indexes or slices only behind a comparison with the length indexed (C07.wire-index).",
   "Liveness under floods, implicit panics and C07's unbounded allocations are not decided. D10 (self-deadlock through signal/disconnect closers) was found by this rule, repaired in /repo (63a82dd) and is recorded as fixed in known_findings.txt.",
   "DESIGN.md §3 C12")
 
 claim("C13",
   "guarded reachability over SSA (filters, selection, reference counts), lockset guarded-by, goroutine/close shape checks",
-  "Decides that events are selected by equality of service/object/action (client) and signal id (server), that the registration table is mutex-protected with removal restricted to the caller's own entry and duplicate ids refused, that remote register/unregister happen exactly on the 0↔1 transitions of the local count under one key, and that each subscription has one sequential forwarding goroutine closing the channel once per exit (client.Subscribe and every generated Subscribe*).",
+  "Decides that events are selected by equality of service/object/action (client) and signal id (server), that the registration table is mutex-protected with removal restricted to the caller's own entry and duplicate ids refused, that remote register/unregister happen exactly on the 0↔1 transitions of the local count under one key, and that each subscription has one sequential forwarding goroutine closing the channel once per exit (client.Subscribe and every generated Subscribe*). No entry of the registration table is read through a pointer taken before another entry was written over it (stale element pointer).",
   "Exactly-once/in-order delivery across subscribe–emit–unsubscribe interleavings is not decided.",
   "DESIGN.md §3 C13")
 
@@ -57,7 +57,7 @@ claim("C15",
 
 claim("C16",
   "lockset (pairing, guarded-by) + table-agreement within critical sections + guarded reachability over SSA",
-  "Decides that object and mailbox tables change together under the same key in one critical section, that Remove deletes a found entry under the exclusive lock and runs OnTerminate exactly once on it outside the lock, that unknown ids are errors, that Add stores only under an id whose lookup failed, and that OnTerminate tells every remaining subscriber.",
+  "Decides that object and mailbox tables change together under the same key in one critical section, that Remove deletes a found entry under the exclusive lock and runs OnTerminate exactly once on it outside the lock, that unknown ids are errors, that Add stores only under an id whose lookup failed, and that OnTerminate tells every remaining subscriber. The identifier under which Add stores is behind a failed lookup of that very identifier (D23, fixed); no blocking channel operation under the service lock (C12.locks, shared).",
   "Behaviour under concurrent add/remove/terminate histories is not decided. D18 (Add on a session-less service created no mailbox) was first a known finding and is fixed in /repo (d8d70b8).",
   "DESIGN.md §3 C16")
 
@@ -107,7 +107,7 @@ claim("C09",
 
 claim("C18",
   "table agreement between IDL printers and IDL grammar (AST constants) + component-registration and assertion checks over SSA",
-  "Decides that every IDL type name printed is parsed back by the same constructor, that composite and line-level tokens printed are atoms of the parser, that the uid is read back as printed into a uint32, that composite types register all their components, and that IDL node builders assert unchecked only to terminals.",
+  "Decides that every IDL type name printed is parsed back by the same constructor, that composite and line-level tokens printed are atoms of the parser, that the uid is read back as printed into a uint32, that composite types register all their components, and that IDL node builders assert unchecked only to terminals. The IDL parser's entry points use no package-level variable that changes after initialisation (C18.stateless); no address of a loop variable shared by all iterations is kept beyond its iteration (C18.loop-variables).",
   "Identity on all meta-objects and parser totality on arbitrary text are not decided. Declared names (struct, field, action) are printed as stored. D14 (void printed as 'nothing') was repaired in /repo.",
   "DESIGN.md §3 C18")
 
